@@ -477,12 +477,19 @@ func writeChunked(w io.Writer, data []byte, chunks []int) error {
 func readChunked(rd io.Reader, sizes []int) ([]byte, error) {
 	var out []byte
 	i := 0
+	zeroReads := 0
 	for {
 		n := 512
 		if len(sizes) > 0 {
 			n = sizes[i%len(sizes)]
-			if n < 1 {
+			if n < 0 {
 				n = 1
+			}
+			if n == 0 && (i%len(sizes) != 0 || zeroReads > 64) {
+				n = 1 // a zero-length buffer is legal (0, nil); only the first size of a cycle may be one, so the loop advances
+			}
+			if n == 0 {
+				zeroReads++
 			}
 		}
 		i++
@@ -731,11 +738,16 @@ type WideSpec struct {
 	N      int    `json:"n"`
 	Remove int    `json:"remove,omitempty"` // how many of them are removed again, in a seeded order
 	Seed   uint64 `json:"seed,omitempty"`
+	Deep   int    `json:"deep,omitempty"` // additionally a chain of that many nested directories w/k/k/.../k with a file at the bottom
 }
 
 func genWide(r *Rand) *WideSpec {
 	w := &WideSpec{N: r.Pick(65, 70, 100, 129, 140), Seed: r.Uint64()}
-	if r.Chance(2, 3) {
+	if r.Chance(1, 3) {
+		w.N = 3
+		w.Deep = r.Pick(17, 31, 32, 33, 40) // recursion bounds and fixed-size stacks live at 16 and 32
+	}
+	if r.Chance(2, 3) && w.Deep == 0 {
 		w.Remove = w.N - r.Pick(1, 5, 20, 32, 33)
 	}
 	return w
@@ -770,6 +782,15 @@ func (w *WideSpec) Apply(fs filesystem.Filespace, m *ModelTree, removeThrough fi
 	}
 	for _, i := range create {
 		if err := do(fs, FsOp{Kind: "WriteFile", Path: wideName(i), Data: fmt.Sprintf("w%03d", i)}); err != nil {
+			return err
+		}
+	}
+	if w.Deep > 0 {
+		p := "w" + strings.Repeat("/k", w.Deep)
+		if err := do(fs, FsOp{Kind: "MkdirAll", Path: p}); err != nil {
+			return err
+		}
+		if err := do(fs, FsOp{Kind: "WriteFile", Path: p + "/bottom", Data: "deep"}); err != nil {
 			return err
 		}
 	}
